@@ -280,6 +280,12 @@ SUBCHECKS = [
     SubCheck("grid_geo_grid", check_grid_roundtrip, strategy=T.grid_cases(), nontrivial=_nt_grid, classes=_cls_grid,
              quick=3000, thorough=320000, shards_quick=3, shards_thorough=16,
              rule="grid -> geographic -> grid (same zone) within 0.2 mm, and exact TM of the result = input within 0.2 mm"),
+    SubCheck("geo_axis_sweeps", check_geo_roundtrip, enumerate=T.geo_sweeps(20000, 320000), nontrivial=_nt_geo, classes=T.tm_classes,
+             shards_quick=8, shards_thorough=16,
+             rule="stratified sweeps through the latitude band and the longitudes (20 000 / 320 000 points per line, lines fixed by the seed)"),
+    SubCheck("grid_axis_sweeps", check_grid_roundtrip, enumerate=T.grid_sweeps(20000, 320000), nontrivial=_nt_grid, classes=_cls_grid,
+             shards_quick=8, shards_thorough=16,
+             rule="stratified sweeps through northings and eastings (20 000 / 320 000 points per line, lines fixed by the seed)"),
     SubCheck("interleaved_calls", check_interleaved, strategy=interleaved_cases,
              nontrivial=lambda c: len({(str(o["ell"]), o["dir"]) for o in c["ops"]}) >= 3,
              classes=lambda c: ["ellipsoids:%d" % len({str(o["ell"]) for o in c["ops"]}), "calls:%d" % len(c["ops"])],
